@@ -75,6 +75,7 @@ Definition pair_lt (a b : Z * Z) : bool :=
 Definition coll_lt (sl : loc) (children : list proto) (ol : loc) (oid : option Z) : bool :=
   if match oid with Some i => existsb (fun c => pid c =? i) children | None => false end then true
   else if contains sl ol && negb (contains ol sl) then true
+  else if contains ol sl && negb (contains sl ol) then false  (* mirrored shortcut: repair of finding F53 / C10-F46 *)
   else pair_lt (comparator sl) (comparator ol).
 Definition lt_pp (a b : proto) : bool := coll_lt (ploc a) [] (ploc b) (Some (pid b)).
 Definition lt_cc (a b : cand) : bool := coll_lt (cloc a) (cmem a) (cloc b) None.
